@@ -16,9 +16,14 @@ yields the default 0 and is then discarded, but prints an out-of-bounds notice. 
 def padOrd (o : Option (Array Int)) : Option (Array Int) := o.map fun s => s.push 0
 
 /-- the main-stem array is locally sane: `usMain[d]` is none or an inflow cell of `d` -/
-def usMainOK (ds usMain : Array Nat) : Bool :=
-  (List.range ds.size).all fun d =>
-    usMain[d]! == ds.size || (usMain[d]! < ds.size && usMain[d]! != d && ds[usMain[d]!]! == d)
+def usMainOK (ds usMain : Array Nat) : Bool := usMainOK_c14 ds usMain
+
+/-- every window (as laid out by the model of `_window`) is duplicate-free and in range - the conclusion
+of `C14.window_nodup` / `window_nodup_checked`, evaluated -/
+def windowsDistinct (ds um : Array Nat) (strord : Option (Array Int)) (n : Nat) : Bool :=
+  (List.range ds.size).all fun i =>
+    let w := window ds um strord n i
+    w.eraseDups.length == w.length && w.all fun k => decide (k < ds.size)
 
 def opsC14 : List (String × Op) := [
   ("c14_downstream", fun a => do
@@ -68,10 +73,13 @@ def opsC14 : List (String × Op) := [
       let s0 := strord0 strord i
       m := m ++ pad i (windowUp ds um n i []) (windowDown ds strord s0 n i [])
       s := s ++ pad i (windowSpecUp ds um n i).reverse (windowSpecDown ds strord n i)
-    pure [("model", ofNatList m), ("spec", ofNatList s), ("usmain_ok", ofBool (usMainOK ds um))]),
+    pure [("model", ofNatList m), ("spec", ofNatList s), ("usmain_ok", ofBool (usMainOK ds um)),
+          ("nodup", ofBool (windowsDistinct ds um strord n))]),
   ("c14_main_upstream", fun a => do
     let ds ← a.nats "ds"
-    pure [("model", ofNats (mainUpstream ds (← a.ints "uparea") (← a.int "upa_min")))]),
+    let um := mainUpstream ds (← a.ints "uparea") (← a.int "upa_min")
+    -- `ok` is 1 on every input (theorem `C14.main_upstream_ok`)
+    pure [("model", ofNats um), ("ok", ofBool (usMainOK_c14 ds um))]),
   ("c14_moving_average", fun a => do
     let ds ← a.nats "ds"
     let um ← a.nats "usmain"
@@ -118,6 +126,7 @@ def opsC14 : List (String × Op) := [
   ("c14_smooth_rivlen", fun a => do
     let ds ← a.nats "ds"
     let um ← a.nats "usmain"
+    let seq ← a.natList "seq"
     let riv := (← a.ints "rivlen").map fun (v : Int) => (v : Rat)
     let minLen : Rat := ((← a.int "min_rivlen") : Int)
     let nd : Rat := ((← a.int "nodata") : Int)
@@ -128,12 +137,14 @@ def opsC14 : List (String × Op) := [
     -- cells that lie in the largest window ever tried (half-width n-1) of some cell holding a value
     let touch := r.map fun j => if r.any (fun i => riv[i]! != nd && (rivSlice ds um n (n - 1) i).contains j)
       then (1 : Int) else 0
-    -- the hypotheses of `smooth_rivlen_total`
+    -- the hypotheses of `smooth_rivlen_total` (since the fourth stage a consequence of `topo`, `cover`,
+    -- `usmain_ok`: `smooth_rivlen_total_checked`, `window_nodup_checked`)
     let nodup := r.all fun i => (window ds um none n i).eraseDups.length == (window ds um none n i).length
     let inb := r.all fun i => (window ds um none n i).all fun k => decide (k < ds.size)
     pure [("model.num", out.map fun q => q.num), ("model.den", out.map fun q => (q.den : Int)),
           ("exact", ofBool exact), ("touch", touch.toArray), ("nodup", ofBool (nodup && inb)),
-          ("usmain_ok", ofBool (usMainOK ds um))]),
+          ("usmain_ok", ofBool (usMainOK ds um)), ("topo", ofBool (isTopo ds seq)),
+          ("cover", ofBool (coversNet_c14 ds seq && riv.size == ds.size))]),
   ("c14_hand", fun a => do
     let ds ← a.nats "ds"
     let seq ← a.natList "seq"
